@@ -40,6 +40,8 @@ def _fact_key(V: List[dict], planned: bool) -> set:
 
 def realised(rec: dict, run: dict) -> bool:
     """Does the concrete scenario have exactly the facts the abstract one planned (code's reading)?"""
+    if rec.get("usage", "none") != "none":
+        return True
     for pf, of in zip(rec["facts"], run["facts"]):
         if of.get("unobserved"):
             return False
@@ -76,10 +78,12 @@ def trace_of(rec: dict, run: dict) -> dict:
             "modified": o["modified"], "skipped": NONE if o["skipped"] is None else o["skipped"],
             "touched": o["touched"] or [], "touched_known": o["touched"] is not None,
             "limit": o["limit"] or [], "left": left, "viol_id": viol_id,
-            "text_id": _intern(tt, o["texts"]), "raised": o["exc"] is not None,
+            "text_id": _intern(tt, o["texts"]),
+            # an exception escaping the CLI shows as its exit status; for the API it is the whole outcome
+            "raised": o["exc"] is not None and ENTRY_KIND[o["entry"]] in ("api", "api_paths"),
         })
     return {
-        "id": rec["id"], "cmd": rec["cmd"], "feu": rec["feu"], "nofail": rec["nofail"], "skipfail": rec["skipfail"],
+        "id": rec["id"], "usage": rec.get("usage", "none"), "cmd": rec["cmd"], "feu": rec["feu"], "nofail": rec["nofail"], "skipfail": rec["skipfail"],
         "byte_limit": plan["byte_limit"] or 0, "char_limit": plan["char_limit"] or 0,
         "files": [{"V": [{k: v[k] for k in ("id", "kind", "suppressed", "viaNoqa", "warning", "fixable")} for v in of["V"]],
                    "nbytes": pf["nbytes"], "nchars": pf["nchars"], "notree": bool(of["notree"])}
@@ -105,6 +109,8 @@ def predicted(rec: dict, o: dict) -> bool:
     a = rec["algo"]
     k = ENTRY_KIND[o["entry"]]
     fixing = rec["cmd"] != "lint"
+    if rec.get("usage", "none") != "none":
+        return o["exit"] == (a["path_exit"] if k == "path" else a["stdin_exit"]) and not o["modified"]
     if k in ("path", "api_paths"):
         ok = (o["exit"] is None or o["exit"] == a["path_exit"]) and (not fixing or o["modified"] == sorted(a["path_mod"]))
         return ok and (o["skipped"] is None or o["skipped"] == a["skipped"])
@@ -125,7 +131,7 @@ def s2c_clause(prop: str, rec: dict, o: dict, first: Optional[dict]) -> Optional
     """
     kind = ENTRY_KIND[o["entry"]]
     if prop == "C19":
-        if o["exc"] is not None:
+        if o["exc"] is not None and kind in ("api", "api_paths"):
             return "C19.ApiRaises"
         if first is None or o is first:
             return None
@@ -151,7 +157,10 @@ def s2c_clause(prop: str, rec: dict, o: dict, first: Optional[dict]) -> Optional
             elif any((o["fixes_left"] or {}).get(str(i), 0) > 0 for i in a["nofix"]):
                 c = "C18.LoopLimitNotReportedUnfixable"
         elif prop == "C22":
-            if over:
+            if rec.get("usage", "none") != "none":
+                c = ("C22.ExitUsage" if o["exit"] is not None and o["exit"] not in a["exits"]
+                     else "C22.UsageErrorModified" if M else None)
+            elif over:
                 c = None
             elif o["exit"] is not None and o["exit"] not in a["exits"]:
                 c = "C22.ExitLint" if rec["cmd"] == "lint" else "C22.ExitFix"
@@ -164,9 +173,12 @@ def s2c_clause(prop: str, rec: dict, o: dict, first: Optional[dict]) -> Optional
                 c = "C34.SkippedRewritten"
             elif o["touched"] is not None and set(over) & set(o["touched"]):
                 c = "C34.SkippedParsed"
+            elif o["touched"] is not None and any(i not in over and not f["notree"] and i not in o["touched"]
+                                                  for i, f in enumerate(rec["facts"], start=1)):
+                c = "C34.UndersizedNotProcessed"
             elif o["skipped"] is not None and o["skipped"] != a["skipped"]:
                 c = "C34.SkippedCounted"
-            elif o["exit"] is not None and rec["limkind"] != "none" and o["exit"] not in a["exits"]:
+            elif o["exit"] is not None and over and o["exit"] not in a["exits"]:
                 c = "C34.ExitOnlyWithSkipFail"
         if c is None:
             return None
@@ -176,9 +188,9 @@ def s2c_clause(prop: str, rec: dict, o: dict, first: Optional[dict]) -> Optional
 
 # ------------------------------------------------------------------------------------------ the check driver
 def signature(rec: dict, o: dict, clause: str) -> dict:
-    return {"clause": clause, "entry": ENTRY_KIND[o["entry"]], "cmd": rec["cmd"], "feu": rec["feu"],
+    return {"clause": clause, "entry": ENTRY_KIND[o["entry"]], "cmd": rec["cmd"], "feu": rec["feu"], "usage": rec.get("usage", "none"),
             "shape": shape(rec), "limkind": rec["limkind"], "cfg": f"{rec['cfgsrc']}/{rec['cfgitem']}",
-            "runaway": rec["runaway"], "predicted": bool(rec["diff"]) and predicted(rec, o),
+            "runaway": rec["runaway"], "predicted": bool(rec.get("diff")) and predicted(rec, o),
             "exc": (o["exc"] or "").split(":")[0]}
 
 
@@ -188,10 +200,12 @@ def describe(rec: dict, run: dict, o: dict, clause: str, direction: str) -> str:
                       for f in plan["files"])
     return (f"[{direction}] {o['entry']} `sqlfluff {rec['cmd']}` scenario {rec['id']} ({shape(rec)}): exit={o['exit']} "
             f"modified={o['modified']} skipped={o['skipped']} limit_hit={o['limit']} exc={o['exc']}; contract allows "
-            f"{rec['allowed']}; root .sqlfluff={plan['root_cfg']!r}; {files}")
+            f"{rec.get('allowed', 'what the path entry did')}; root .sqlfluff={plan['root_cfg']!r}; {files}")
 
 
-def check(prop: str, tier: str, seed: int, nontrivial, rule: str, with_counterexample: bool = False) -> int:
+def check(prop: str, tier: str, seed: int, nontrivial, rule: str, refinement=(), corpus: bool = False) -> int:
+    """`refinement`: (invariant, families, finding) triples — Algo => Contract clause by clause, run as TLC INVARIANTs;
+    a violation is expected exactly while the named finding is open and is recorded, never a verdict."""
     from .core import Report, expect_model_ok
     from .tlc import validate_traces
 
@@ -208,10 +222,12 @@ def check(prop: str, tier: str, seed: int, nontrivial, rule: str, with_counterex
             devs[c] = devs.get(c, 0) + 1
     rep.extra["model_deviations"] = {"scenarios": len(recs), "with_deviation": sum(1 for r in recs if r["diff"]),
                                      "by_clause": dict(sorted(devs.items()))}
-    if with_counterexample:
-        cx = counterexample(tier)
-        rep.model(cx, "AlgoRefinesContract (expected to be violated while F3/F10/F11/F23 are open)")
-        rep.extra["algo_refines_contract"] = {"violated": cx.violated, "trace_tail": cx.stdout[-1500:] if cx.violated else ""}
+    rep.extra["algo_refines_contract"] = []
+    for inv, fams, finding in refinement:
+        cx, txt = counterexample(tier, inv, fams)
+        rep.model(cx, f"{inv} over {'+'.join(fams)} (Algo => Contract; violated while {finding} is open)")
+        rep.extra["algo_refines_contract"].append({"invariant": inv, "holds": cx.violated is None, "expected_open_finding": finding,
+                                                   "tlc_counterexample": txt})
     runs, cache = recording(tier, seed, recs)
     rep.extra["cache"] = cache
     by = {r["id"]: r for r in recs}
@@ -242,6 +258,18 @@ def check(prop: str, tier: str, seed: int, nontrivial, rule: str, with_counterex
         for t in traces_for(prop, rec, run):
             traces.append(t)
             tmeta[t["id"]] = (rec, run)
+    if corpus:
+        from .outcome_corpus import corpus_runs
+
+        cruns, ccache = corpus_runs(tier, seed)
+        rep.extra["corpus"] = {"runs": len(cruns), "cache": ccache}
+        for run in cruns:
+            rep.evaluated(len(run["obs"]))
+            if len(run["obs"]) >= 3 and any(o["viols"] and any(o["viols"].values()) or o["modified"] for o in run["obs"]):
+                rep.nontrivial(json.dumps([run["path"], run["rec"]["cmd"]]))
+            for t in traces_for(prop, run["rec"], run):
+                traces.append(t)
+                tmeta[t["id"]] = (run["rec"], run)
     if len(unreal) > len(recs) // 20:
         raise MachineryError(f"{len(unreal)} of {len(recs)} scenarios are not realised by the concretiser "
                              f"(first: {unreal[:5]}); the building blocks no longer produce the planned facts")
@@ -258,6 +286,21 @@ def check(prop: str, tier: str, seed: int, nontrivial, rule: str, with_counterex
         seen.add((rec["id"], o["entry"], rj["clause"]))
         rep.violation(rj["clause"], signature(rec, o, rj["clause"]), describe(rec, run, o, rj["clause"], "C->S"),
                       {"rec": rec, "entry": o["entry"], "obs": o, "dir": "C->S", "verdict": rj})
+    # Report.finish writes the first 25 distinct signatures: interleave the classes so that every (clause, entry)
+    # class that occurred is among them
+    buckets: Dict[Tuple[str, str], List[dict]] = {}
+    for v in rep.violations:
+        buckets.setdefault((v["clause"], v["sig"].get("entry", "")), []).append(v)
+    order: List[dict] = []
+    while any(buckets.values()):
+        for k in sorted(buckets):
+            if buckets[k]:
+                order.append(buckets[k].pop(0))
+    rep.violations = order
+    rep.extra["violation_classes"] = {}
+    for v in order:
+        k = f"{v['clause']}@{v['sig'].get('entry', '')}"
+        rep.extra["violation_classes"][k] = rep.extra["violation_classes"].get(k, 0) + 1
     mid = runs[len(runs) // 2]
     rep.sample({"scenario": {k: v for k, v in by[mid["id"]].items() if k != "facts"}, "plan": mid["plan"],
                 "observations": [{k: v for k, v in o.items() if k != "texts"} for o in mid["obs"]]})
